@@ -179,7 +179,7 @@ def is_legal_checked(ix, b, sym, db, dv):
             if inner[0] == "call" and inner[1] == "board::Board::is_legal_move" and inner[2][1] == dv:
                 f, tr = C.switch_edges(blk.term)
                 illegal = tr if (e[1].endswith("is_err") != neg) else f
-                if not any(db in b.reachable_from(x, include_start=True) for x in illegal):
+                if not any(db in b.reachable_from(x, removed={blk.idx}, include_start=True) for x in illegal):
                     return True
     return False
 
